@@ -23,6 +23,9 @@ from .model import Model, FuncInfo, src, dotted
 WIDTH = {"B": 8, "b": 8, "H": 16, "h": 16, "I": 32, "i": 32, "L": 32, "l": 32, "Q": 64, "q": 64}
 
 
+TRANSFORMS = {"rstrip", "lstrip", "strip", "lower", "upper", "replace", "title", "swapcase", "zfill", "ljust", "rjust", "center", "translate", "removeprefix", "removesuffix"}
+
+
 class LayoutError(Exception):
     pass
 
@@ -186,6 +189,8 @@ class Writer:
                     pass
             if d.endswith("unhexlify"):
                 return ("bytes", "unhexlify")
+            if isinstance(e.func, ast.Attribute) and e.func.attr in TRANSFORMS and isinstance(e.func.value, (ast.Name, ast.Attribute)):
+                return ("transformed", f"{src(e.func.value)}.{e.func.attr}({', '.join(src(a) for a in e.args)})")
         if isinstance(e, ast.Subscript) and isinstance(e.value, ast.Name) and e.value.id in self.env and self.env[e.value.id][0] in ("bytes", "tokens"):
             return ("bytes", e.value.id)  # a slice of local bytes: variable length
         if isinstance(e, ast.Name) and e.id in self.env:
@@ -235,6 +240,8 @@ class Writer:
                 return v[1]
             if v[0] in ("bytes", "alias"):
                 return [("datakey", e.id, None)]
+            if v[0] == "transformed":
+                return [("transformed", e.id, v[1])]
             return [("unknown", f"{e.id}={v}")]
         if isinstance(e, ast.Attribute):
             return [("datakey", src(e), None)]
@@ -594,6 +601,9 @@ def compare(w: list, r: list, path="") -> Optional[str]:
         here = f"{path}[{i}]"
         if a[0] == "unknown" or b[0] == "unknown":
             raise LayoutError(f"{here}: {a if a[0] == 'unknown' else b}")
+        if a[0] == "transformed":
+            return (f"{here}: the writer emits `{a[2]}` instead of the field `{a[1]}` itself; the reader stores what it reads, so a value the reader (and the constructor) accepts "
+                    "is written differently from how it was read - not a fixed point, and possibly not even decodable (e.g. an all-zero bitmap window stripped to length 0)")
         if a[0] != b[0]:
             # a trailing fixed/any writer datum may be read as 'rest'
             return f"{here}: writer has {fmt(a)} where the reader has {fmt(b)}"
